@@ -15,6 +15,7 @@ import (
 	"strconv"
 	"strings"
 	"sync"
+	"sync/atomic"
 	"time"
 
 	"github.com/mark3labs/flyt"
@@ -163,7 +164,7 @@ var hangCount int
 const maxHangs = 3
 
 func execGBatch(sc *GBatchSc, choose chooser) (GBatchObs, []string) {
-	if hangCount >= maxHangs {
+	if hangCount >= maxHangs || atomic.LoadInt32(&flowHangs) >= 3 {
 		return GBatchObs{Phases: [][][2]int{}, Items: "-", Slots: "-", Out: "H"}, []string{"bad:skipped-after-hangs"}
 	}
 	cfg := BatchCfg{Budget: sc.Budget, Fb: sc.Fb, Conc: sc.Conc, Stop: sc.Stop, ExecS: sc.ExecS, HasPost: true,
@@ -203,7 +204,11 @@ func execGBatch(sc *GBatchSc, choose chooser) (GBatchObs, []string) {
 		if sc.PreVia != "" {
 			node.WithBatchErrorHandling(!sc.PreStop)
 		}
-		e.runOnce(0)
+		if pre := e.runOnce(0); pre.Out == "H" {
+			// the ungated warm-up run itself never returned: the gated run on the same node cannot be set up
+			hangCount++
+			return GBatchObs{Phases: [][][2]int{}, Items: "-", Slots: "-", Out: "H"}, []string{"bad:warm-up-run-hung"}
+		}
 		if sc.PreVia == "option" {
 			// the same settings written through the option functions, applied to the node's BaseNode
 			flyt.WithBatchConcurrency(sc.Conc)(node.BaseNode)
@@ -226,7 +231,13 @@ func execGBatch(sc *GBatchSc, choose chooser) (GBatchObs, []string) {
 	ridCh := make(chan int, 1)
 	e.onRunner = func() { ridCh <- goid() }
 	go func() { done <- e.runOnce(0) }()
-	runner := <-ridCh
+	var runner int
+	select {
+	case runner = <-ridCh:
+	case <-time.After(10 * time.Second): // the run was never started (the flow executor gave up after earlier hangs)
+		hangCount++
+		return GBatchObs{Phases: [][][2]int{}, Items: "-", Slots: "-", Out: "H"}, []string{"bad:run-not-started"}
+	}
 
 	buf := make([]byte, 1<<20)
 	var phases [][][2]int
